@@ -47,7 +47,7 @@ def TestCall.inDom : TestCall → Bool
       inp.length == t.length && increasing t && decide (0 ≤ s) && decide (0 ≤ f)
   | .attenuated _ inp t _ _ p mo mp =>
       inp.length == t.length && increasing t &&
-      (match p with | some q => decide (0 < q) && isInt q | none => true) &&
+      (match p with | some q => decide (0 < q) | none => true) &&
       (match mo, mp with
        | some _, some _ => false
        | _, some q => decide (0 ≤ q) && decide (2 ≤ inp.length)
